@@ -295,7 +295,11 @@ func (h *wHist) digest(kind string, wl *wWal, out wOutcome, randomOutputs bool) 
 			if prev := w.signed[o.B]; prev != nil && h.prop == "C19" && wl != nil && wl.cut {
 				w.stats["c19:resubmitted-after-cut"]++
 			} else if prev != nil && h.prop == "C19" {
-				h.violate(fmt.Sprintf("output-resubmitted-after-signed op=%s endpoint=%s", kind, r.path),
+				first := ""
+				if prev.untrusted {
+					first = " first=output-at-untrusted-mint"
+				}
+				h.violate(fmt.Sprintf("output-resubmitted-after-signed op=%s endpoint=%s%s", kind, r.path, first),
 					fmt.Sprintf("B_ %s (keyset %s, counter %d) was signed in operation %d and is submitted again", o.B[:16], o.Id, prev.counter, prev.op), nil)
 			}
 			if known && h.prop == "C19" && !(wl != nil && wl.cut) {
@@ -312,6 +316,7 @@ func (h *wHist) digest(kind string, wl *wWal, out wOutcome, randomOutputs bool) 
 			}
 			if signedNow {
 				op := &wOutput{B: o.B, amount: amt, ks: o.Id, m: m, counter: -1, by: wl, op: h.opn}
+				op.untrusted = wl != nil && wl.W != nil && wl.store.inner.GetKeyset(o.Id) == nil
 				if known {
 					op.seed, op.counter = org.seed, org.counter
 					op.secret = org.seed.tables[org.ks].rows[org.counter].secret
